@@ -710,6 +710,14 @@ def run(res):
     if f51:
         res.known_finding("F51", "a message without headers table is not routed to a headers binding whose argument table has nothing to match (x-match all alone), although an empty headers table is")
 
+    for c in routes[:n_corpus_routes]:
+        for i, op in enumerate(c["ops"]):
+            a = table(op.get("args")) or {}
+            xm = a.get(b"x-match")
+            if xm and xm[0] == "bytes" and unhex(xm[1]) in (b"all", b"any") and i in c["out"]["errs"]:
+                res.known_finding("F52", "NewBinding refuses an x-match argument that arrives as []byte (long string in the 0-9-1 table dialect): queue.bind answers 406")
+                break
+
     # ---- decide
     corr_broken = model_ok and (bad_rows or bad_pairs or bad_routes or b_bad_model)
     if pr["ok"] and model_ok and not corr_broken and not judged_bad and not b_judged:
